@@ -5,6 +5,10 @@ import (
 	"math"
 	"strconv"
 	"strings"
+	"time"
+
+	"github.com/shpandrak/shpanstream/stream"
+	"github.com/shpandrak/shpanstream/utils/timeseries/tsquery/report"
 )
 
 // C10, the stream filters: aligner / aligner with fill mode (both packages), delta and rate filter (datasource
@@ -29,6 +33,9 @@ func execXLineX(toks []string) (obs string, inputFail bool) {
 			obs, inputFail = "planpanic", false
 		}
 	}()
+	if len(toks) == 3 && toks[0] == "X" && toks[1] == "ss" {
+		return execXStruct(toks[2]), false
+	}
 	if len(toks) < 6 || toks[0] != "X" {
 		return "bad-case", false
 	}
@@ -450,5 +457,100 @@ func genC10Cal(e *qEmitter, c *Ctx) {
 			}
 			emit("ds", qT("dfilt", xDstatic("counter", dt, true, s, 0), calAlign(units[r.Intn(3)], z.zone, "")))
 		}
+	}
+}
+
+// ---------------------------------------------------------------- StaticStructDatasource (reflection over a struct type)
+
+// `X ss <variant>`: a report datasource built by reflection from a Go struct type. Whatever the field types are, the
+// constructor either refuses the type or every row conforms to the metadata it declared (an int64 for "integer", …).
+type c10Celsius float64
+type c10Count int64
+type c10Label string
+type c10Flag bool
+
+type c10SsPlain struct {
+	At   time.Time
+	N    int64
+	V    float64
+	Name string
+	Ok   bool
+	priv int
+}
+type c10SsNamed struct {
+	At time.Time
+	T  c10Celsius
+	N  c10Count
+	L  c10Label
+	F  c10Flag
+}
+type c10SsInt struct {
+	At    time.Time
+	Count int
+}
+type c10SsInt32 struct {
+	At time.Time
+	C  int32
+}
+type c10SsUint struct {
+	At time.Time
+	C  uint64
+}
+type c10SsF32 struct {
+	At time.Time
+	C  float32
+}
+type c10SsPtr struct {
+	At time.Time
+	C  *int64
+}
+type c10SsTwoTimes struct {
+	At, Until time.Time
+	C         int64
+}
+type c10SsNoTime struct{ C int64 }
+
+func c10SsObs[T any](rows ...T) string {
+	ds, err := report.NewStaticStructDatasource[T](stream.Just(rows...))
+	if err != nil {
+		return "reject struct prepull=0"
+	}
+	return qObsReport(ds, newQBuilder(), false, 0, 4102444800000000000)
+}
+
+func execXStruct(variant string) (obs string) {
+	defer func() {
+		if r := recover(); r != nil {
+			obs = "planpanic"
+		}
+	}()
+	t1, t2 := time.Unix(1000, 0).UTC(), time.Unix(2000, 0).UTC()
+	var seven int64 = 7
+	switch variant {
+	case "plain":
+		return c10SsObs(c10SsPlain{t1, 1, 1.5, "a", true, 0}, c10SsPlain{t2, -2, 0, "", false, 1})
+	case "named":
+		return c10SsObs(c10SsNamed{t1, 21.5, 3, "x", true}, c10SsNamed{t2, -1, 0, "", false})
+	case "int":
+		return c10SsObs(c10SsInt{t1, 1}, c10SsInt{t2, 2})
+	case "int32":
+		return c10SsObs(c10SsInt32{t1, 1})
+	case "uint":
+		return c10SsObs(c10SsUint{t1, 1})
+	case "f32":
+		return c10SsObs(c10SsF32{t1, 1})
+	case "ptr":
+		return c10SsObs(c10SsPtr{t1, &seven}, c10SsPtr{t2, nil})
+	case "twotimes":
+		return c10SsObs(c10SsTwoTimes{t1, t2, 1})
+	case "notime":
+		return c10SsObs(c10SsNoTime{1})
+	}
+	return "bad-case"
+}
+
+func genC10Struct(c *Ctx) {
+	for _, v := range []string{"plain", "named", "int", "int32", "uint", "f32", "ptr", "twotimes", "notime"} {
+		c.Case(true, "X ss "+v)
 	}
 }
